@@ -15,4 +15,5 @@ func registerAll() {
 	core.Register("C07", execC07)
 	core.Register("C15", execC15)
 	core.Register("C04", execC04)
+	core.Register("C05", execC05)
 }
